@@ -1105,6 +1105,13 @@ func checkC09Resume(c CaseHistRep) (*vkit.Failure, vkit.Meta) {
 		base := cloneSpec(c.H.Spec)
 		stripInterrupts(base)
 		ref := gkit.Ref(base, "", fixInput(c.H.Spec, c.H.Input), gkit.RefOpts{})
+		if eagerAfter(c.H.Spec) {
+			// eager (workflow) execution with interrupt-after points: whether such a node is the last to finish ("the run
+			// finished with it") or an interrupt is due depends on which of the concurrently running nodes finishes
+			// last - two resumes from the same bytes may legitimately end differently
+			m.Labels = append(m.Labels, "eager-level-with-interrupt-after(skipped)")
+			return nil
+		}
 		if ref.Fail != "" || ref.Ambiguous || len(ref.OptionalNodes) > 0 {
 			// nodes that do not lead to END may outlive their run (and, when they hold a nested graph, interrupt after it
 			// returned): only graphs in which a returned run is a finished run are judged here
@@ -1178,4 +1185,24 @@ func TestC09Resume(t *testing.T) {
 
 func TestC09ResumeReplay(t *testing.T) {
 	vkit.Replay(t, "C09", checkC09Resume)
+}
+
+// eagerAfter: some workflow level of the spec has interrupt-after points.
+func eagerAfter(sp *gkit.Spec) bool {
+	if sp.Mode == "workflow" && len(sp.IntAfter) > 0 {
+		return true
+	}
+	for i := range sp.Nodes {
+		if sp.Nodes[i].Sub != nil && eagerAfter(sp.Nodes[i].Sub) {
+			return true
+		}
+	}
+	for si := range sp.Stages {
+		for i := range sp.Stages[si].Nodes {
+			if n := &sp.Stages[si].Nodes[i]; n.Sub != nil && eagerAfter(n.Sub) {
+				return true
+			}
+		}
+	}
+	return false
 }
